@@ -56,6 +56,10 @@ RR_SCRIPTS = {
     'deep-rr-112': (dict(rock_ridge='1.12'), [('dir', p, p.rsplit('/', 1)[1].lower() + '-' + 'l' * 40 * (i % 3), None) for i, p in enumerate(DEEP)] +
                     [('dir', DEEP[-1] + '/D9', 'd9', None), ('file', DEEP[-1] + '/D9/X.;1', 'x' * 200, None, 3), ('file', DEEP[-1] + '/Y.;1', 'y', None, 4),
                      ('dir', '/D1/D2/D3/D4/D5/D6/D7/E8', 'e8', None), ('file', '/D1/D2/D3/D4/D5/D6/D7/E8/Z.;1', 'z', None, 5)]),
+    # the image is written and OPENED again in the middle of the history; the entries added afterwards need continuation areas (K58)
+    'rr-edit-after-reopen': (dict(rock_ridge='1.09'), [('file', '/A.;1', 'a', None, 5), ('dir', '/D', 'd', None), ('reopen',), ('file', '/B.;1', 'b' * 200, None, 2049),
+                                                       ('symlink', '/S.;1', 'sym', 'c' * 255), ('dir', '/D/E', 'e' * 120, None), ('reopen',), ('rm_file', '/B.;1', None),
+                                                       ('file', '/D/E/F.;1', 'f' * 251, None, 3)]),
 }
 
 # Joliet scripts (C09): names outside ASCII / outside the BMP, 64-character names, trees that differ between Joliet and ISO9660
@@ -89,18 +93,22 @@ FLAVOURS = {
     'rr110-joliet': dict(rock_ridge='1.10', joliet=2), 'rr112-joliet-xa': dict(rock_ridge='1.12', joliet=3, xa=True),
     'level4': dict(interchange_level=4), 'joliet1-level2': dict(joliet=1, interchange_level=2),
 }
+# bridge flavours: every entry may have a name in each of ISO9660, Rock Ridge, Joliet and UDF (histories named random:<flavour>:...)
+FLAVOURS_X = {'udf-joliet': dict(joliet=3, udf='2.60'), 'udf-rr-joliet': dict(joliet=3, udf='2.60', rock_ridge='1.09'), 'udf-plain': dict(udf='2.60')}
 
 
-def random_script(flavour, seed, nops=28):
+def random_script(flavour, seed, nops=28, reopen_every=0):
     """a random but well-formed edit history (deterministic in flavour and seed): files of boundary sizes, directories, removals,
     hard links in both namespaces, symbolic links, hidden flags - every operation is one the library must accept, chosen from
-    the current state of the tree"""
+    the current state of the tree. With reopen_every=k the image is written and opened again after every k operations and the
+    history goes on on the OPENED object (zero-length files are then no longer removed: K21)"""
     import random
-    rnd = random.Random('%s/%d' % (flavour, seed))
-    kw = FLAVOURS[flavour]
-    rr, jol = 'rock_ridge' in kw, 'joliet' in kw
+    rnd = random.Random('%s/%d' % (flavour, seed) + ('/r%d' % reopen_every if reopen_every else ''))
+    reopened = [False]
+    kw = FLAVOURS[flavour] if flavour in FLAVOURS else FLAVOURS_X[flavour]
+    rr, jol, udf = 'rock_ridge' in kw, 'joliet' in kw, 'udf' in kw
     maxdepth = 10 if rr else 6
-    dirs = {'': ('', '')}            # iso dir path -> (rr name of the dir itself, joliet path)
+    dirs = {'': ('', '', '')}        # iso dir path -> (rr name of the dir itself, joliet path, udf path)
     files = {}                       # iso path -> dict(j=[joliet paths], cid, links=[other iso paths])
     contents = 0
     symlinks = []
@@ -127,7 +135,15 @@ def random_script(flavour, seed, nops=28):
             name = name[:-1]
         return name.rstrip(' .') or 'j%d' % k
 
-    for _ in range(nops):
+    def uname(k):
+        alphabet = ['a', 'B', '-', ' ', '\u00e9', '\u4e2d', '_']
+        tail = ''.join(rnd.choice(alphabet) for _ in range(rnd.choice([0, 3, 20, 100]) if rnd.random() < 0.4 else rnd.randint(0, 12)))
+        return ('u%d' % k + tail)[:120].rstrip(' ')
+
+    for _i in range(nops):
+        if reopen_every and _i and _i % reopen_every == 0:
+            ops.append(('reopen',))
+            reopened[0] = True
         r = rnd.random()
         parents = [d for d in dirs if d.count('/') < maxdepth - 1]
         if jol and r < 0.04:
@@ -144,8 +160,9 @@ def random_script(flavour, seed, nops=28):
             size = rnd.choice([0, 1, 5, 2047, 2048, 2049, 4096, 5000])
             rn = rrname(k) if rr else None
             jp = (dirs[d][1] + '/' + jname(k)) if (jol and rnd.random() < 0.8) else None
-            ops.append(('file', ip, rn, jp, size))
-            files[ip] = dict(j=[jp] if jp else [], cid=contents, links=[])
+            up = (dirs[d][2] + '/' + uname(k)) if (udf and rnd.random() < 0.85) else None
+            ops.append(('file', ip, rn, jp, size) + (({'udf_path': up},) if up else ()))
+            files[ip] = dict(j=[jp] if jp else [], cid=contents, links=[], size=size, u=up)
             contents += 1
         elif r < 0.55:
             d = rnd.choice(parents)
@@ -153,13 +170,17 @@ def random_script(flavour, seed, nops=28):
             ip = '%s/D%d' % (d, k)
             rn = rrname(k) if rr else None
             jp = (dirs[d][1] + '/' + jname(k)) if jol else None
-            ops.append(('dir', ip, rn, jp))
-            dirs[ip] = (rn, jp or '')
+            up = (dirs[d][2] + '/' + uname(k)) if udf else None
+            ops.append(('dir', ip, rn, jp) + (({'udf_path': up},) if up else ()))
+            dirs[ip] = (rn, jp or '', up or '')
         elif r < 0.67:
-            ip = rnd.choice(sorted(files))
+            removable = sorted(p for p, g in files.items() if g['size'] or not reopened[0])
+            if not removable:
+                continue
+            ip = rnd.choice(removable)
             f = files.pop(ip)
             # rm_file removes every name of that content
-            ops.append(('rm_file', ip, f['j'][0] if f['j'] else None))
+            ops.append(('rm_file', ip, f['j'][0] if f['j'] else None) + ((f['u'],) if f.get('u') else ()))
             for other in [p for p, g in files.items() if g['cid'] == f['cid']]:
                 files.pop(other)
         elif r < 0.75:
@@ -169,7 +190,7 @@ def random_script(flavour, seed, nops=28):
             if not empties:
                 continue
             d = rnd.choice(empties)
-            ops.append(('rm_dir', d, dirs[d][1] or None))
+            ops.append(('rm_dir', d, dirs[d][1] or None) + ((dirs[d][2],) if dirs[d][2] else ()))
             dirs.pop(d)
         elif r < 0.85:
             src = rnd.choice(sorted(files))
@@ -185,26 +206,26 @@ def random_script(flavour, seed, nops=28):
             else:
                 ip = '%s/L%d.;1' % (d, k)
                 ops.append(('link', src, ip) + ((rrname(k),) if rr else ()))
-                files[ip] = dict(j=files[src]['j'], cid=files[src]['cid'], links=[])
+                files[ip] = dict(j=files[src]['j'], cid=files[src]['cid'], links=[], size=files[src]['size'], u=files[src].get('u'))
         elif r < 0.93 and rr:
             d = rnd.choice(parents)
             k = fresh()
             ip = '%s/S%d.;1' % (d, k)
-            target = rnd.choice(['a', '/', '../x', './a/../b', 'c' * 255, '/'.join('p%d' % i for i in range(rnd.randint(2, 70))), 'q' * 300 + '/r', '/abs/' + 'z' * 100])
-            ops.append(('symlink', ip, rrname(k), target))
+            target = rnd.choice(['a', '../x', '/abs/./y', 'd/' + 'z' * 100]) if udf else rnd.choice(['a', '/', '../x', './a/../b', 'c' * 255, '/'.join('p%d' % i for i in range(rnd.randint(2, 70))), 'q' * 300 + '/r', '/abs/' + 'z' * 100])
+            ops.append(('symlink', ip, rrname(k), target) + ((dirs[d][2] + '/' + uname(k),) if udf else ()))
             symlinks.append(ip)
         elif r < 0.96:
             ip = rnd.choice(sorted(files))
             ops.append(('hide', ip))
         else:
             # remove ONE name of a content that has several
-            multi = [p for p, g in files.items() if sum(1 for q, h in files.items() if h['cid'] == g['cid']) > 1]
+            multi = [p for p, g in files.items() if sum(1 for q, h in files.items() if h['cid'] == g['cid']) > 1 and (g['size'] or not reopened[0])]
             if multi:
                 ip = rnd.choice(sorted(multi))
                 ops.append(('rm_link', ip))
                 files.pop(ip)
             else:
-                cands = sorted(p for p, g in files.items() if len(g['j']) > 1)
+                cands = sorted(p for p, g in files.items() if len(g['j']) > 1 and (g['size'] or not reopened[0]))
                 if cands:
                     ip = rnd.choice(cands)
                     jp = files[ip]['j'][-1]
@@ -227,11 +248,35 @@ def random_names(tier, flavours=None, quick_n=1, thorough_n=12):
     return names
 
 
+def random_bridge_names(tier):
+    """random histories on bridge images where entries get names in every namespace at once (ISO9660 + Rock Ridge + Joliet + UDF),
+    fresh and with the image written and opened again every few operations"""
+    import os
+    base = int(os.environ.get('VERIF_SEED', '0') or 0) * 1000 if tier != 'quick' else 0
+    if tier == 'quick':
+        return ['random:udf-rr-joliet:1:28', 'random:udf-joliet:1:28:r7']
+    names = ['random:%s:%d:28' % (fl, base + k) for fl in sorted(FLAVOURS_X) for k in range(1, 5)]
+    names += ['random:%s:%d:28:r%d' % (fl, base + k, (7, 3)[k % 2]) for fl in sorted(FLAVOURS_X) for k in range(1, 5)]
+    return names + ['random:%s:%d:150' % (fl, base + 1) for fl in sorted(FLAVOURS_X)] + ['random:udf-rr-joliet:%d:120:r10' % (base + 1)]
+
+
+def random_reopen_names(tier):
+    """random histories during which the image is written and opened again every few operations (the history goes on on the opened
+    object): quick one per flavour family, thorough all flavours, several seeds and two longer ones"""
+    import os
+    base = int(os.environ.get('VERIF_SEED', '0') or 0) * 1000 if tier != 'quick' else 0
+    if tier == 'quick':
+        return ['random:plain:1:28:r7', 'random:joliet:1:28:r7', 'random:rr109:1:28:r7', 'random:rr112-joliet-xa:1:28:r5']
+    names = ['random:%s:%d:28:r%d' % (fl, base + k, (7, 5, 2)[k % 3]) for fl in sorted(FLAVOURS) for k in range(1, 7)]
+    names += ['random:%s:%d:120:r10' % (fl, base + k) for fl in sorted(FLAVOURS) for k in (1, 2)]
+    return names
+
+
 def get_script(name):
     """(image keyword arguments, operations) of a table script or of 'random:<flavour>:<seed>'"""
     if name.startswith('random:'):
         parts = name.split(':')
-        return random_script(parts[1], int(parts[2]), int(parts[3]) if len(parts) > 3 else 28)
+        return random_script(parts[1], int(parts[2]), int(parts[3]) if len(parts) > 3 else 28, int(parts[4][1:]) if len(parts) > 4 else 0)
     return SCRIPTS_ALL[name]
 
 
@@ -315,6 +360,36 @@ def model_of(script):
     return iso, jol, rr, hidden, symlinks, content
 
 
+def udf_model_of(script):
+    """the UDF tree an ISO9660-style script implies (entries given a udf_path)"""
+    m, ncontent, cid_of = {}, 0, {}
+    for op in script:
+        if op[0] == 'file':
+            cid_of[op[1]] = ncontent
+            up = (op[5] if len(op) > 5 else {}).get('udf_path')
+            if up:
+                m[up] = ('file', ncontent)
+            ncontent += 1
+        elif op[0] == 'jfile':
+            ncontent += 1
+        elif op[0] == 'dir':
+            up = (op[4] if len(op) > 4 else {}).get('udf_path')
+            if up:
+                m[up] = ('dir',)
+        elif op[0] == 'link':
+            cid_of[op[2]] = cid_of[op[1]]
+        elif op[0] == 'rm_file':
+            gone = ('file', cid_of.get(op[1]))
+            for k in [k for k, v in m.items() if v == gone]:
+                m.pop(k)
+        elif op[0] == 'rm_dir':
+            if len(op) > 3:
+                m.pop(op[3], None)
+        elif op[0] == 'symlink' and len(op) > 4:
+            m[op[4]] = ('symlink', op[3])
+    return m
+
+
 def build(c, name):
     kw, script = get_script(name)
     iso = S.new_image(c, **kw)
@@ -356,15 +431,20 @@ def build(c, name):
                 k['joliet_path'] = jp
             S.call(c, iso, 'add_directory', **k)
         elif op[0] == 'rm_file':
-            S.call(c, iso, 'rm_file', iso_path=op[1], **({'joliet_path': op[2]} if op[2] else {}))
+            S.call(c, iso, 'rm_file', iso_path=op[1], **dict(({'joliet_path': op[2]} if op[2] else {}), **({'udf_path': op[3]} if len(op) > 3 else {})))
         elif op[0] == 'rm_dir':
-            S.call(c, iso, 'rm_directory', iso_path=op[1], **({'joliet_path': op[2]} if op[2] else {}))
+            S.call(c, iso, 'rm_directory', iso_path=op[1], **dict(({'joliet_path': op[2]} if op[2] else {}), **({'udf_path': op[3]} if len(op) > 3 else {})))
         elif op[0] == 'link':
             S.call(c, iso, 'add_hard_link', iso_old_path=op[1], iso_new_path=op[2], **({'rr_name': op[3]} if len(op) > 3 else {}))
         elif op[0] == 'symlink':
-            S.call(c, iso, 'add_symlink', symlink_path=op[1], rr_symlink_name=op[2], rr_path=op[3])
+            S.call(c, iso, 'add_symlink', symlink_path=op[1], rr_symlink_name=op[2], rr_path=op[3], **({'udf_symlink_path': op[4], 'udf_target': op[3]} if len(op) > 4 else {}))
         elif op[0] == 'hide':
             S.call(c, iso, 'set_hidden', iso_path=op[1])
+        elif op[0] == 'reopen':
+            # write what there is, open it again and go on editing the OPENED object
+            img = S.written(c, iso)
+            iso = c.new(S.PC)
+            S.call(c, iso, 'open_fp', c.file(img))
     return iso, contents
 
 
@@ -568,6 +648,18 @@ class Mastered(Base):
         cl['structurally-valid-for-an-independent-reader'] = not im.problems
         if im.problems or over:
             a.problems = im.problems + over
+        if 'udf' in kw:
+            # the UDF side of a bridge image: the independent UDF reader must find exactly the entries given a UDF path
+            umodel = udf_model_of(script)
+            ucl, u = udf_clauses(img, umodel, content_m, a.contents, a)
+            cl.update({'udf:' + k: v for k, v in ucl.items()})
+            if u is not None:
+                same = []
+                for up, v in umodel.items():
+                    f = u.files.get(up)
+                    if f and v[0] == 'file' and content_m[v[1]] and v[1] in extent_of_content:
+                        same.append(f['extents'][0][0] in extent_of_content[v[1]])
+                cl['udf:udf-and-iso9660-names-share-their-data-sectors'] = all(same)
         return cl
 
     def observe(self, c, a, out):
@@ -780,10 +872,13 @@ UDF_SCRIPTS = {
 }
 
 
-def random_udf_script(seed, nops=24, rr=False):
-    """a random well-formed edit history on a UDF bridge image (deterministic in the seed)"""
+def random_udf_script(seed, nops=24, rr=False, reopen_every=0):
+    """a random well-formed edit history on a UDF bridge image (deterministic in the seed); with reopen_every=k the image is written
+    and opened again after every k operations (zero-length files are then no longer removed: K21)"""
     import random
-    rnd = random.Random('udf/%d/%s' % (seed, rr))
+    rnd = random.Random('udf/%d/%s' % (seed, rr) + ('/r%d' % reopen_every if reopen_every else ''))
+    sizes = {}
+    reopened = False
     kw = dict(udf='2.60')
     if rr:
         kw['rock_ridge'] = '1.09'
@@ -794,7 +889,10 @@ def random_udf_script(seed, nops=24, rr=False):
     ops = []
     k = 0
     alphabet = ['a', 'B', '-', ' ', '\u00e9', '\u4e2d', '_']
-    for _ in range(nops):
+    for _i in range(nops):
+        if reopen_every and _i and _i % reopen_every == 0:
+            ops.append(('reopen',))
+            reopened = True
         r = rnd.random()
         parents = [d for d in dirs if d.count('/') < 5]
         k += 1
@@ -806,6 +904,7 @@ def random_udf_script(seed, nops=24, rr=False):
             up = dirs[d] + '/' + uname
             ops.append(('file', ip, up, rnd.choice([0, 1, 2047, 2048, 2049, 4096, 6000])))
             files[ip] = up
+            sizes[ip] = ops[-1][3]
         elif r < 0.65:
             d = rnd.choice(parents)
             ip = '%s/D%d' % (d, k)
@@ -813,7 +912,10 @@ def random_udf_script(seed, nops=24, rr=False):
             ops.append(('dir', ip, up))
             dirs[ip] = up
         elif r < 0.8:
-            ip = rnd.choice(sorted(files))
+            removable = sorted(p for p in files if sizes[p] or not reopened)
+            if not removable:
+                continue
+            ip = rnd.choice(removable)
             up = files.pop(ip)
             ops.append(('rm_file', ip, up))
             for o in [o for o in ops if o[0] == 'ulink' and o[1] == up and o[2] in uonly]:
@@ -852,8 +954,19 @@ def random_udf_script(seed, nops=24, rr=False):
 def get_udf_script(name):
     if name.startswith('udf-random'):
         parts = name.split(':')
-        return random_udf_script(int(parts[1]), int(parts[2]) if len(parts) > 2 else 24, rr=name.startswith('udf-random-rr'))
+        return random_udf_script(int(parts[1]), int(parts[2]) if len(parts) > 2 else 24, rr=name.startswith('udf-random-rr'),
+                                 reopen_every=int(parts[3][1:]) if len(parts) > 3 else 0)
     return UDF_SCRIPTS[name]
+
+
+def random_udf_reopen_names(tier):
+    """random UDF histories during which the image is written and opened again every few operations"""
+    import os
+    base = int(os.environ.get('VERIF_SEED', '0') or 0) * 1000 if tier != 'quick' else 0
+    if tier == 'quick':
+        return ['udf-random:1:24:r6', 'udf-random-rr:1:24:r6']
+    names = ['%s:%d:24:r%d' % (fl, base + k, (6, 3)[k % 2]) for fl in ('udf-random', 'udf-random-rr') for k in range(1, 9)]
+    return names + ['udf-random:%d:120:r10' % (base + 1), 'udf-random-rr:%d:120:r10' % (base + 1)]
 
 
 def random_udf_names(tier, quick_n=2, thorough_n=20):
@@ -900,6 +1013,10 @@ def build_udf(c, name):
             S.call(c, iso, 'add_hard_link', udf_old_path=op[1], udf_new_path=op[2])
         elif op[0] == 'rm_ulink':
             S.call(c, iso, 'rm_hard_link', udf_path=op[1])
+        elif op[0] == 'reopen':
+            img = S.written(c, iso)
+            iso = c.new(S.PC)
+            S.call(c, iso, 'open_fp', c.file(img))
     return iso, contents
 
 
@@ -932,6 +1049,50 @@ def udf_model(script):
     return m, content
 
 
+def udf_clauses(img, model, content_m, contents, a):
+    """the clauses an independent UDF reader decides for one image: (clauses, decoded image or None)"""
+    try:
+        u = UR.read_udf(img)
+    except (R.Bad, KeyError, IndexError) as e:
+        a.problems = ['reader gave up: %r' % (e,)]
+        return {'independent-udf-reader-reaches-the-file-set': False}, None
+    cl = {'independent-udf-reader-reaches-the-file-set': True}
+    got = {p: v['kind'] for p, v in u.files.items()}
+    want = {p: v[0] for p, v in model.items()}
+    cl['udf-tree-and-names-are-what-the-edits-imply'] = got == want
+    ok = []
+    for p, v in model.items():
+        f = u.files.get(p)
+        if f is None:
+            continue
+        if v[0] == 'file':
+            ok.append(f['length'] == content_m[v[1]])
+            ok.append(Eq(V.mk_bytes(f['data']), contents[v[1]]))
+        elif v[0] == 'symlink':
+            ok.append(f['target'] == v[1])
+    cl['every-file-reads-back-byte-for-byte-and-symlink-targets-match'] = And(*ok) if ok else True
+    for p, f in u.files.items():
+        if f['kind'] == 'file':
+            for s, ln in f['extents']:
+                u.objects.append(('UDF file data %s' % p, s, -(-ln // 2048)))
+    cl['every-descriptor-tag-and-length-is-valid'] = not u.im.problems
+    # several names of one file share its file entry and its data: one object
+    seen_obj, objs = set(), []
+    for w, s_, n_ in u.objects:
+        key = (w.split(' /')[0], s_, n_) if (w.startswith('UDF file entry') or w.startswith('UDF file data')) else (w, s_, n_)
+        if key not in seen_obj:
+            seen_obj.add(key)
+            objs.append((w, s_, n_))
+    over = extents_overlap(objs)
+    cl['udf-objects-occupy-disjoint-sectors'] = not over
+    inside = all(s >= u.part_start and s + n <= u.part_start + u.part_len for w, s, n in u.objects
+                 if w.startswith('UDF file') or w.startswith('UDF directory') or w.startswith('UDF symlink'))
+    cl['files-and-directories-inside-the-partition'] = inside
+    if u.im.problems or over:
+        a.problems = u.im.problems + over
+    return cl, u
+
+
 @contract
 class MasteredUDF(Base):
     """C10 for one edit script: an independent ECMA-167 reader that starts from the volume recognition sequence and the two anchors
@@ -954,43 +1115,10 @@ class MasteredUDF(Base):
         img = list(a.out.items) if c.symbolic else list(a.out.getvalue())
         kw, script = get_udf_script(self.script)
         model, content_m = udf_model(script)
-        try:
-            u = UR.read_udf(img)
-        except (R.Bad, KeyError, IndexError) as e:
-            a.problems = ['reader gave up: %r' % (e,)]
-            return {'independent-udf-reader-reaches-the-file-set': False}
-        cl = {'independent-udf-reader-reaches-the-file-set': True}
-        got = {p: v['kind'] for p, v in u.files.items()}
-        want = {p: v[0] for p, v in model.items()}
-        cl['udf-tree-and-names-are-what-the-edits-imply'] = got == want
-        ok = []
-        for p, v in model.items():
-            f = u.files.get(p)
-            if f is None:
-                continue
-            if v[0] == 'file':
-                ok.append(f['length'] == content_m[v[1]])
-                ok.append(Eq(V.mk_bytes(f['data']), a.contents[v[1]]))
-            elif v[0] == 'symlink':
-                ok.append(f['target'] == v[1])
-        cl['every-file-reads-back-byte-for-byte-and-symlink-targets-match'] = And(*ok) if ok else True
-        for p, f in u.files.items():
-            if f['kind'] == 'file':
-                for s, ln in f['extents']:
-                    u.objects.append(('UDF file data %s' % p, s, -(-ln // 2048)))
-        cl['every-descriptor-tag-and-length-is-valid'] = not u.im.problems
-        # several names of one file share its file entry and its data: one object
-        seen_obj, objs = set(), []
-        for w, s_, n_ in u.objects:
-            key = (w.split(' /')[0], s_, n_) if (w.startswith('UDF file entry') or w.startswith('UDF file data')) else (w, s_, n_)
-            if key not in seen_obj:
-                seen_obj.add(key)
-                objs.append((w, s_, n_))
-        over = extents_overlap(objs)
-        cl['udf-objects-occupy-disjoint-sectors'] = not over
-        inside = all(s >= u.part_start and s + n <= u.part_start + u.part_len for w, s, n in u.objects
-                     if w.startswith('UDF file') or w.startswith('UDF directory') or w.startswith('UDF symlink'))
-        cl['files-and-directories-inside-the-partition'] = inside
+        cl, u = udf_clauses(img, model, content_m, a.contents, a)
+        if u is None:
+            return cl
+        over = []
         # the ISO9660 view of the same image points at the same data sectors
         try:
             im2, res = R.read_iso(img)
